@@ -560,7 +560,14 @@ const XMLCh* DOMElementImpl::getBaseURI() const
            bool             DOMElementImpl::hasChildNodes() const                   {return fParent.hasChildNodes (); }
            DOMNode*         DOMElementImpl::insertBefore(DOMNode *newChild, DOMNode *refChild)
                                                                                     {return fParent.insertBefore (newChild, refChild); }
-           void             DOMElementImpl::normalize()                             {fParent.normalize (); }
+           void             DOMElementImpl::normalize()
+           {
+               fParent.normalize ();
+               // "... including attribute nodes" (DOM Core, Node.normalize)
+               if (fAttributes != 0)
+                   for (XMLSize_t i = 0; i < fAttributes->getLength(); i++)
+                       fAttributes->item(i)->normalize();
+           }
            DOMNode*         DOMElementImpl::removeChild(DOMNode *oldChild)          {return fParent.removeChild (oldChild); }
            DOMNode*         DOMElementImpl::replaceChild(DOMNode *newChild, DOMNode *oldChild)
                                                                                     {return fParent.replaceChild (newChild, oldChild); }
